@@ -11,3 +11,6 @@ import (
 // sessionCookies reads the keys of the REST session table through rest.VerifSessions, a function the
 // checks add to package rest with `go test -overlay` (rest_verif.go.in; nothing is written to the tree).
 func sessionCookies(h http.Handler) ([]string, bool) { return rest.VerifSessions(h) }
+
+// hookAfterReset installs a yield point right after timerMgr.Reset (see rest_verif.go.in).
+func hookAfterReset(h http.Handler, f func(key string, ok bool)) bool { return rest.VerifHookAfterReset(h, f) }
